@@ -41,6 +41,9 @@ ASSUMPTIONS = ["inputs are valid for the single-slice call (finite scores, 0/1 l
 
 TOL = 1e-6
 G8 = [Fr(i, 8) for i in range(0, 9)]
+# binned metrics also see logits: scores below the first and above the last threshold (bucket −1 of one task must not
+# spill into a neighbouring task's bins when tasks are laid out side by side in one histogram)
+GBIN = [Fr(-1, 2), Fr(-1, 8)] + G8 + [Fr(9, 8)]
 G16 = [Fr(i, 16) for i in range(1, 16)]
 W5 = [Fr(0), Fr(1, 2), Fr(1), Fr(2), Fr(3)]
 PROB = [Fr(1, 8), Fr(1, 4), Fr(1, 2), Fr(3, 4), Fr(7, 8)]
@@ -288,8 +291,10 @@ def gen_rows(rng: Rng, tier):
         if fn in ("binary_auroc", "binary_auprc", "binary_binned_auroc", "binary_binned_auprc"):
             weighted = fn == "binary_auroc" and rng.random() < 0.6
 
+            bgrid = GBIN if (fn.startswith("binary_binned") and rng.random() < 0.5) else G8
+
             def make(pr):
-                r = {"input": scores(rng, n, pr[0]), "target": labels(rng, n, pr[1])}
+                r = {"input": scores(rng, n, pr[0], bgrid), "target": labels(rng, n, pr[1])}
                 if weighted:
                     r["weight"] = weights(rng, n, pr[2])
                 return r
@@ -946,6 +951,7 @@ def gen_clsrows(rng: Rng, tier, windowed=False):
                 nb = rng.randint(1, 2 * cfg["max_num_updates"] + 2)
         if "Binned" in cls:
             cfg["threshold"] = rng.choice([THR5, THR3])
+        fl_bin = "Binned" in cls and rng.random() < 0.5
         fl = "NormalizedEntropy" in cls and rng.random() < 0.3
         if fl:
             cfg["from_logits"] = True
@@ -980,7 +986,7 @@ def gen_clsrows(rng: Rng, tier, windowed=False):
                     if weighted:
                         d["weight"] = weights(rng, n, pr[2])
                 else:
-                    d["input"] = scores(rng, n, pr[0])
+                    d["input"] = scores(rng, n, pr[0], GBIN if ("Binned" in cls and fl_bin) else G8)
                     d["target"] = labels(rng, n, pr[1])
                     if weighted and cls in ("BinaryAUROC", "WindowedBinaryAUROC"):
                         d["weight"] = weights(rng, n, pr[2])
